@@ -5,6 +5,7 @@ from ..core import inspmodel as M
 from ..core.absint import AbsRaise
 from ..core.loader import AnalysisError
 from ..core.table import extract, inexact_notes
+from ..core.termeval import ev, CannotEval, Raised
 from ..core.values import (K, T, Obj, DictV, ListV, SetV, TupleV, AbsFunc,
                            ClassRef, show)
 from ..specs import formats, images
@@ -402,9 +403,30 @@ def _detect(ctx):
                         return src
                     return NotImplemented
                 interp.on_call = on_call
-                interp.decide = lambda i, t: True if (
-                    isinstance(t, T) and t.op == 'sym' and
-                    str(t.args[0]).startswith('chunk')) else None
+                def len_hook(v, val):
+                    # every read but the last returns as many bytes as were
+                    # asked for (4096); the last one is shorter
+                    if isinstance(v, T) and v.op == 'call' and \
+                            v.args[0] == 'len' and len(v.args) == 2 and \
+                            isinstance(v.args[1], T) and \
+                            v.args[1].op == 'sym' and str(
+                                v.args[1].args[0]).startswith('chunk'):
+                        return 100 if str(v.args[1].args[0]) == 'chunk2' \
+                            else 4096
+                    return NotImplemented
+
+                def decide(i, t):
+                    if isinstance(t, T) and t.op == 'sym' and \
+                            str(t.args[0]).startswith('chunk'):
+                        return True
+                    if isinstance(t, T) and t.op == 'cmp' and \
+                            'len(chunk' in show(t):
+                        try:
+                            return bool(ev(t, {}, [len_hook]))
+                        except (CannotEval, Raised):
+                            return None
+                    return None
+                interp.decide = decide
                 src.fields['__enter__'] = AbsFunc(
                     '__enter__', lambda i, a, k: src)
                 src.fields['__exit__'] = AbsFunc(
